@@ -396,7 +396,8 @@ def scheduled_body(s):
 
 def sched_worker(task):
     from vlib import coopsched, common
-    root, budget = task
+    root, budget = task[:2]
+    bound = task[2] if len(task) > 2 else 1
     coopsched.install()
 
     def judge(res):
@@ -405,7 +406,7 @@ def sched_worker(task):
         return res.value, []
     with common.quiet_stdio():
         n, outcomes, viols, left, maxpts = coopsched.explore_subtree(
-            scheduled_body, root, 1, budget, judge)
+            scheduled_body, root, bound, budget, judge)
     return n, {repr(k): v for k, v in outcomes.items()}, \
         [(list(p), repr(k), repr(b)) for p, k, b in viols[:20]], left, maxpts
 
@@ -489,11 +490,12 @@ def run(ctx):
     total = 0
     outcomes = {}
     maxpts = 0
-    cap = 3000 if quick else 40000
+    cap = 3000 if quick else 400000
+    bound = 1 if quick else 2
     while queue and total < cap:
         batch, queue = queue[:64], queue[64:]
         for n, outs, viols, left, mp in common.pimap(
-                sched_worker, [(list(r), 60) for r in batch]):
+                sched_worker, [(list(r), 60, bound) for r in batch]):
             total += n
             maxpts = max(maxpts, mp)
             for k, v in outs.items():
@@ -511,7 +513,8 @@ def run(ctx):
     if queue:
         ctx.cap("schedule exploration capped at %d executions (%d subtrees "
                 "left)" % (cap, len(queue)))
-    ctx.part("polling-driver schedules (<=1 preemption)", executions=total,
+    ctx.part("polling-driver schedules (<=%d preemption)" % bound,
+             executions=total,
              distinct_digests=len(outcomes), max_choice_points=maxpts,
              complete=not queue)
     ctx.coverage.update(
@@ -528,7 +531,7 @@ def run(ctx):
         "replication. Same pattern => identical full digest (event log, "
         "statistics hex, complete notification stream) across all processes; "
         "different patterns => identical reduced digest (event log, "
-        "statistics, replication-level notifications). Plus every schedule with <=1 preemption of a "
+        "statistics, replication-level notifications). Plus every schedule with <=1 (thorough: <=2, up to the stated cap) preemption of a "
         "driver that only polls. non-trivial = runs with > 20 logged events."
         % (hashseeds, priors))
     ctx.assumptions += [
